@@ -41,6 +41,11 @@ type (
 		// imp numbers the import expansion (of a file or a snippet)
 		// that produced this token; 0 for tokens of the input itself.
 		imp int
+
+		// envBreaks counts the line breaks in Text that were not written
+		// in the source but came in with the value of an environment
+		// variable; they do not move the tokens that follow to other lines.
+		envBreaks int
 	}
 )
 
@@ -156,7 +161,7 @@ func (l *lexer) next() bool {
 
 // NumLineBreaks counts how many line breaks are in the token text.
 func (t Token) NumLineBreaks() int {
-	lineBreaks := strings.Count(t.Text, "\n")
+	lineBreaks := strings.Count(t.Text, "\n") - t.envBreaks
 	return lineBreaks
 }
 
